@@ -225,7 +225,7 @@ func genC05(rt *rapid.T) c05Case {
 }
 
 func TestC05Progress(t *testing.T) {
-	common.Check(t, "C05", "TestC05Progress", 1800, 40000, genC05, c05Prop)
+	common.Check(t, "C05", "TestC05Progress", 4000, 80000, genC05, c05Prop)
 }
 
 // ---- fault-free synchronous run: every view extends the chain by a certified block; commits trail by the chain length ----
